@@ -15,6 +15,10 @@ CHECKS = {
         text="The real recvRecord is handed one ARBITRARY symbolic record (symbolic type/version/body, enumerated length) while an honest writer has emitted two records; under the MAC/AEAD unforgeability assumption z3 proves that acceptance implies the yielded type and plaintext are exactly those of the record the writer sent at the reader's sequence number, and that every rejection is one of the record layer's integrity/decoding exceptions. SSLv2-framed bytes on a protected connection and TLS 1.3 inner-plaintext de-padding are separate obligations.",
         note="Unforgeability and bijectivity are assumptions (stated in evidence); block/stream ciphers are modelled statelessly, which only strengthens the adversary; lengths enumerated; timing not modelled.",
         design="5/C02", technique=T),
+    "C06": dict(
+        text="The gate every received message passes, TLSRecordLayer._getMsg(expected content types, expected handshake types), is executed on a real TLSConnection for every literal argument pair found at the library's call sites (read from the AST on each run), both roles and versions, with the next record's content type, handshake type and body symbolic: z3 proves that a message is returned only if its content type and handshake type were expected, and that everything else ends in a fatal alert that is on the wire before the exception (unexpected_message for a wrong type), the peer's own alert, or a decode error. Renegotiation attempts on an established connection are proved to be answered with no_renegotiation without touching state; the TLS 1.3 framing rules (CCS only as 0x01 in compatibility mode, no interleaving, key-change messages end on a record boundary, no empty non-application records, no empty record skipped while a handshake message is awaited) are separate obligations.",
+        note="Null record protection (F-CONN); one or two records per obligation; the expectation sequences of whole handshake flows (which _getMsg arguments follow which) are covered only for the flows driven in C03/C04 obligations, not for every key-exchange middle; whole-trace languages by skip/duplicate/swap of honest traces need live runs and are not claimed.",
+        design="5/C06", technique=T),
     "C08": dict(
         text="Parser totality: every message class (constructed as _getMsg constructs it) and every extension class in every context is run on arbitrary symbolic bytes of each enumerated length; z3 shows that every feasible path ends in a value or in an exception type that _getMsg maps to an alert (SyntaxError family, TLSIllegalParameterException) and that the read index stays inside the buffer. The record layer's handling of undecodable framing is covered by C02.2.",
         note="Bounded by the enumerated input lengths (quick: extension payloads 0..8, messages up to 49 bytes); X.509 bodies are opaque; wall time and heap are not measured (no allocation sized by an unchecked peer length is the proxy); connection-level obligations are being added.",
@@ -31,6 +35,14 @@ CHECKS = {
         text="RSAKey.decrypt is executed with the private-key operation returning an arbitrary symbolic encoded message and with hashing/HMAC as uninterpreted functions; z3 proves for every EM and ciphertext of the enumerated modulus sizes that it never raises, consults no randomness, performs exactly one private operation, returns the real message iff the PKCS#1 v1.5 padding is valid and otherwise the synthetic message whose length is chosen from the ciphertext-keyed PRF alone (independent of the defect class), and None exactly for publicly invalid ciphertexts. RSAKeyExchange.processClientKeyExchange is proved to return 48 bytes on every path with identical RNG use, the real premaster iff length and version bytes are right.",
         note="Modulus sizes 16/32/48 bytes (quick) up to 64 (thorough); SHA-256/HMAC uninterpreted; timing/cache side channels are outside (the code itself documents CPython is not constant time); the wire behaviour of the whole server flow (no early alert) is not yet driven.",
         design="5/C11", technique=T),
+    "C16": dict(
+        text="Two real TLS 1.3 TLSConnection objects joined by in-memory pipes, record protection an AEAD model whose key is named after the traffic-secret term (HKDF 'traffic upd' a free constructor): for every operation word over {A/B write symbolic data, A/B send KeyUpdate requested / not requested} of the enumerated lengths z3/the path explorer shows data delivered exactly and in order, both directions' keys in step, session secrets equal on both sides and equal to the installed keys. Dispatch of post-handshake messages (symbolic handshake type and request value: only KeyUpdate/NewSessionTicket/PHA accepted, unknown KeyUpdate value = illegal_parameter with no key change, control never delivered as data), heartbeat (response echoes exactly the symbolic request payload, short padding ignored, wrong mode fatal, not negotiated = unexpected_message) and the preconditions of locally initiated control messages are separate obligations.",
+        note="Words of length <= 2 plus six longer ones (quick), <= 3 (thorough); key derivation is a term model, not real HKDF (C09.12 covers HKDF); post-handshake authentication is covered under C05 only as far as its obligations go.",
+        design="5/C16", technique=T),
+    "C17": dict(
+        text="On a real TLSConnection (F-CONN) with a symbolic alert level/description, symbolic data and symbolic ignoreAbruptClose: close_notify ends read() quietly with the data before it delivered, the session resumable, a close_notify answered, later reads empty and writes raising the closed-connection error; any other alert surfaces as TLSRemoteAlert with exactly the peer's level and description and invalidates the session; EOF without alert (at a record boundary or inside a header) raises TLSAbruptCloseError unless opted out. close() with and without closeSocket, send failure during handshake and data messages (peer alert surfaced, socket error propagated, shutdown), and _handshakeWrapperAsync under every failure kind at a symbolic step (connection shut down, record state cleared, session not resumable, exception unchanged, fatal alert on the wire before a local alert) are further obligations.",
+        note="Null record protection; faults injected at the first send or at end of input, not at every I/O index of complete handshakes.",
+        design="5/C17", technique=T),
     "C18": dict(
         text="SessionCache: every history of n get/set operations (operation kinds and IDs chosen by symbolic selectors - the same ID may be stored repeatedly - symbolic non-decreasing clock, symbolic maxAge and validity flags) is executed on the real class and z3 proves it refines the plain sequential specification (lookup succeeds iff the session last stored under the ID is younger than the limit, valid and not evicted; size bound; only KeyError). VerifierDB/BaseDB: histories over set/get/del/contains/keys refine a dict. Python_RSAKey._rawPrivateKeyOp on toy keys: result = m^d mod n for every residue from any invariant blinding pair, invariant re-established at lock release. On every explored path the mutex is replaced by a recording lock and the shared attributes sit behind access hooks: every access to shared state happens while the lock is held and the lock is released on every exit - with a real mutex that makes every interleaving equivalent to one of the sequential histories.",
         note="Thread interleavings are not enumerated: atomicity is derived from the lock discipline (rely/guarantee); preemption inside C-level dict/list operations is left to the GIL; RSA algebra on toy moduli (<= 12 bits); dbm file back ends are I/O and outside; histories of 3-4 (quick) / 5 (thorough) operations.",
